@@ -33,6 +33,7 @@ func h07Perm(texts []string, k int) []string {
 // the augmenting module, whatever the load order (second run on a fresh set, other order).
 func H07() {
 	hcSlim = param("slim") == 1
+	hcNoCfg = true
 	sc := hcGenerate(param("n"))
 	hasAug := false
 	for _, lv := range sc.levels {
